@@ -476,6 +476,8 @@ def run(chk, scratch):
         w, clusters = coverage_world(seed, kind_sets[(i + 1) % len(kind_sets)], annotated=annotated)
         pipeline.write_world(w, d)
         extra = ["--high_memory"] if i % 4 >= 2 else []
+        if i % 2 == 1:
+            extra = extra + ["--no_secondary"]      # secondary records ignored: an alignment seen from two regions is still reported once
         bams = None
         if i % 2 == 1 or i % 4 == 2:
             # the records in two BAM files of ONE experiment: the first file holds the reads of the first cluster only (it has no alignment in
